@@ -384,7 +384,9 @@ class LieselCfg:
             mu = lsl.Var(lsl.Calc(lambda b: jnp.asarray(self.X) @ b, beta), name="mu")
             sd = lsl.Calc(jnp.sqrt, s2)
             y = lsl.obs(jnp.zeros(self.n, jnp.float32), lsl.Dist(tfd.Normal, loc=mu, scale=sd), name="y")
-            return lsl.GraphBuilder().add(y).build_model()
+            # a helper quantity that feeds no distribution; the user's Gibbs step reads it from the model state
+            rss = lsl.Calc(lambda y_, m_: jnp.sum((y_ - m_) ** 2), y, mu, _name="rss")
+            return lsl.GraphBuilder().add(y, rss).build_model()
         if self.which in ("smooth", "smoothrd"):
             self.n, self.q = 8, 3
             self.Z = r.normal(size=(self.n, self.q)).astype(np.float32) * 0.8
@@ -486,8 +488,7 @@ class LieselCfg:
 
                 def tfn(key, state):
                     # conjugate IG(3 + n/2, 2 + SSR/2) draw of sigma2, written on the transformed (log) scale
-                    res_ = state["y_value"].value - X @ state["beta_value"].value
-                    rate = 2.0 + 0.5 * jnp.sum(res_ ** 2)
+                    rate = 2.0 + 0.5 * state["rss"].value
                     s2 = rate / jax.random.gamma(key, 3.0 + n / 2)
                     return {"sigma2_transformed": jnp.log(s2)}
                 return [gs.IWLSKernel(["beta"], initial_step_size=1.0), gs.GibbsKernel(["sigma2_transformed"], tfn)]
